@@ -56,11 +56,11 @@ void scen_c06(mt_case * c) {
   mt_desc("C06 barrier N=%d rounds=%d main_participates=%d delay seed=%08x\n", B.N, B.R, B.main_participates, B.dseed);
   mt_hash(c->prog.p, c->prog.pos);
   mt_lib_start(c, &e, big ? 32768 : 0);
-  myth_barrier_init(&B.b, 0, B.N);
+  Z0(myth_barrier_init(&B.b, 0, B.N));
   myth_thread_t * th = calloc((size_t)B.N + 1, sizeof *th); int first = B.main_participates ? 1 : 0;
-  for (int i = first; i < B.N; i++) myth_create_ex(&th[i], 0, barrier_body, (void *)(intptr_t)i);
+  for (int i = first; i < B.N; i++) Z0(myth_create_ex(&th[i], 0, barrier_body, (void *)(intptr_t)i));
   if (B.main_participates) barrier_body((void *)0);
-  for (int i = first; i < B.N; i++) { myth_join(th[i], 0); mv_progress(); }
+  for (int i = first; i < B.N; i++) { Z0(myth_join(th[i], 0)); mv_progress(); }
   mt_lib_finish();
   for (int k = 0; k < B.R; k++) {
     if (B.returned[k] != B.N) mt_fail("round %d: %d of %d returned", k, B.returned[k], B.N);
@@ -139,18 +139,18 @@ void scen_c07(mt_case * c) {
   J.jc.state = J.preset;
   myth_thread_t wt[8], dt[8];
   int order = (int)rd_below(r, 3);
-  if (order == 0) for (int k = 0; k < J.K; k++) myth_create_ex(&wt[k], 0, jc_waiter, (void *)(intptr_t)k);
-  for (int d = 0; d < J.D; d++) { myth_create_ex(&dt[d], 0, jc_decrementer, (void *)(intptr_t)d); if (order == 1 && d < J.K) myth_create_ex(&wt[d], 0, jc_waiter, (void *)(intptr_t)d); }
-  if (order == 1) for (int k = J.D; k < J.K; k++) myth_create_ex(&wt[k], 0, jc_waiter, (void *)(intptr_t)k);
-  if (order == 2) for (int k = 0; k < J.K; k++) myth_create_ex(&wt[k], 0, jc_waiter, (void *)(intptr_t)k);
-  for (int d = 0; d < J.D; d++) { myth_join(dt[d], 0); mv_progress(); }
+  if (order == 0) for (int k = 0; k < J.K; k++) Z0(myth_create_ex(&wt[k], 0, jc_waiter, (void *)(intptr_t)k));
+  for (int d = 0; d < J.D; d++) { Z0(myth_create_ex(&dt[d], 0, jc_decrementer, (void *)(intptr_t)d)); if (order == 1 && d < J.K) Z0(myth_create_ex(&wt[d], 0, jc_waiter, (void *)(intptr_t)d)); }
+  if (order == 1) for (int k = J.D; k < J.K; k++) Z0(myth_create_ex(&wt[k], 0, jc_waiter, (void *)(intptr_t)k));
+  if (order == 2) for (int k = 0; k < J.K; k++) Z0(myth_create_ex(&wt[k], 0, jc_waiter, (void *)(intptr_t)k));
+  for (int d = 0; d < J.D; d++) { Z0(myth_join(dt[d], 0)); mv_progress(); }
   if (J.hold_back) {
     /* fewer than N decrements: nobody may have been released, however long we wait */
     do_yields(4 + J.K);
     if (J.released) mt_fail("%d waiter(s) released after only %ld of %ld decrements", J.released, J.started + J.preset, J.N);
     for (long i = 0; i < J.hold_back; i++) jc_dec_one();
   }
-  for (int k = 0; k < J.K; k++) { myth_join(wt[k], 0); mv_progress(); }
+  for (int k = 0; k < J.K; k++) { Z0(myth_join(wt[k], 0)); mv_progress(); }
   /* a wait issued afterwards returns immediately */
   nosw_what = "join_counter_wait after the N-th decrement"; nosw_on(); myth_join_counter_wait(&J.jc); nosw_off();
   mt_lib_finish();
@@ -226,13 +226,13 @@ void scen_c08(mt_case * c) {
   mt_lib_start(c, &e, 0);
   myth_uncond_init(&U.u);
   myth_thread_t tp = 0, tc = 0, tb[4];
-  for (int k = 0; k < nby; k++) myth_create_ex(&tb[k], 0, u_bystander, (void *)(intptr_t)byy);
-  if (consumer_first) { if (main_role != 2) myth_create_ex(&tc, 0, u_consumer, 0); if (main_role != 1) myth_create_ex(&tp, 0, u_producer, 0); }
-  else { if (main_role != 1) myth_create_ex(&tp, 0, u_producer, 0); if (main_role != 2) myth_create_ex(&tc, 0, u_consumer, 0); }
+  for (int k = 0; k < nby; k++) Z0(myth_create_ex(&tb[k], 0, u_bystander, (void *)(intptr_t)byy));
+  if (consumer_first) { if (main_role != 2) Z0(myth_create_ex(&tc, 0, u_consumer, 0)); if (main_role != 1) Z0(myth_create_ex(&tp, 0, u_producer, 0)); }
+  else { if (main_role != 1) Z0(myth_create_ex(&tp, 0, u_producer, 0)); if (main_role != 2) Z0(myth_create_ex(&tc, 0, u_consumer, 0)); }
   if (main_role == 1) u_producer(0); else if (main_role == 2) u_consumer(0);
-  if (tp) { myth_join(tp, 0); mv_progress(); }
-  if (tc) { myth_join(tc, 0); mv_progress(); }
-  for (int k = 0; k < nby; k++) { myth_join(tb[k], 0); mv_progress(); }
+  if (tp) { Z0(myth_join(tp, 0)); mv_progress(); }
+  if (tc) { Z0(myth_join(tc, 0)); mv_progress(); }
+  for (int k = 0; k < nby; k++) { Z0(myth_join(tb[k], 0)); mv_progress(); }
   mt_lib_finish();
   if (U.ngot != U.items) mt_fail("consumed %d of %d items", U.ngot, U.items);
   for (int i = 0; i < U.ngot && i < 64; i++) if (U.got[i] != i + 1) mt_fail("item %d: got %ld", i, U.got[i]);
@@ -344,13 +344,13 @@ void scen_c09(mt_case * c) {
   myth_felock_init(&F.fe, 0); F.box = -1;
   myth_thread_t th[12], rth[4]; int n = 0;
   int cf = (int)rd_below(r, 2), rf = (int)rd_below(r, 2);
-  if (rf) for (int k = 0; k < F.R; k++) myth_create_ex(&rth[k], 0, fe_reader, (void *)(intptr_t)k);
-  if (cf) for (int j = 0; j < F.C; j++) myth_create_ex(&th[n++], 0, fe_consumer, (void *)(intptr_t)j);
-  for (int i = 0; i < F.P; i++) myth_create_ex(&th[n++], 0, fe_producer, (void *)(intptr_t)i);
-  if (!cf) for (int j = 0; j < F.C; j++) myth_create_ex(&th[n++], 0, fe_consumer, (void *)(intptr_t)j);
-  if (F.insp) myth_create_ex(&th[n++], 0, fe_inspector, (void *)(intptr_t)F.insp);
-  if (!rf) for (int k = 0; k < F.R; k++) myth_create_ex(&rth[k], 0, fe_reader, (void *)(intptr_t)k);
-  for (int i = 0; i < n; i++) { myth_join(th[i], 0); mv_progress(); }
+  if (rf) for (int k = 0; k < F.R; k++) Z0(myth_create_ex(&rth[k], 0, fe_reader, (void *)(intptr_t)k));
+  if (cf) for (int j = 0; j < F.C; j++) Z0(myth_create_ex(&th[n++], 0, fe_consumer, (void *)(intptr_t)j));
+  for (int i = 0; i < F.P; i++) Z0(myth_create_ex(&th[n++], 0, fe_producer, (void *)(intptr_t)i));
+  if (!cf) for (int j = 0; j < F.C; j++) Z0(myth_create_ex(&th[n++], 0, fe_consumer, (void *)(intptr_t)j));
+  if (F.insp) Z0(myth_create_ex(&th[n++], 0, fe_inspector, (void *)(intptr_t)F.insp));
+  if (!rf) for (int k = 0; k < F.R; k++) Z0(myth_create_ex(&rth[k], 0, fe_reader, (void *)(intptr_t)k));
+  for (int i = 0; i < n; i++) { Z0(myth_join(th[i], 0)); mv_progress(); }
   if (F.R) {
     /* closing write: every item is consumed, the variable is empty; fill it for good */
     myth_felock_wait_and_lock(&F.fe, 0);
@@ -358,7 +358,7 @@ void scen_c09(mt_case * c) {
     F.box = FE_CLOSING; F.model_status = 1;
     wit_leave(&F.w, "closing writer");
     myth_felock_mark_and_signal(&F.fe, 1);
-    for (int k = 0; k < F.R; k++) { myth_join(rth[k], 0); mv_progress(); }
+    for (int k = 0; k < F.R; k++) { Z0(myth_join(rth[k], 0)); mv_progress(); }
     if (F.chain != F.R) mt_fail("%ld of %d readers saw the closing value", F.chain, F.R);
   }
   mt_lib_finish();
@@ -386,8 +386,8 @@ static void once_init_common(int i) {
   switch (O.kind[i]) {
   case 0: break;
   case 1: do_yields(3); break;
-  case 2: myth_mutex_lock(&O.m); do_yields(1); myth_mutex_unlock(&O.m); break;
-  case 3: { myth_thread_t t; void * rv; myth_create_ex(&t, 0, once_child, (void *)7); myth_join(t, &rv); if (rv != (void *)7) mt_fail("init routine: joined child returned %p", rv); break; }
+  case 2: myth_mutex_lock(&O.m); do_yields(1); Z0(myth_mutex_unlock(&O.m)); break;
+  case 3: { myth_thread_t t; void * rv; Z0(myth_create_ex(&t, 0, once_child, (void *)7)); myth_join(t, &rv); if (rv != (void *)7) mt_fail("init routine: joined child returned %p", rv); break; }
   }
   mv_progress();
   O.completed[i] = 1;     /* last statement of the routine */
@@ -400,12 +400,12 @@ static void * once_caller(void * a) {
   int me = (int)(intptr_t)a, i = O.ctl_of[me];
   do_yields(O.y[me]);
   unsigned long s0 = HIT(MVS_ONCE_WAIT);
-  myth_once(&O.ctl[i], once_fn[i]);
+  Z0(myth_once(&O.ctl[i], once_fn[i]));
   if (!O.completed[i]) mt_fail("myth_once returned to caller %d before the init routine of control %d completed", me, i);
   if (HIT(MVS_ONCE_WAIT) != s0) __sync_fetch_and_add(&O.waited, 1);
   for (int k = 0; k < O.repeats[me]; k++) {
     nosw_what = "a repeated myth_once call"; nosw_on();
-    myth_once(&O.ctl[i], once_fn[i]);
+    Z0(myth_once(&O.ctl[i], once_fn[i]));
     nosw_off();
     if (O.runs[i] != 1) mt_fail("init routine of control %d ran again on a later call", i);
   }
@@ -426,10 +426,10 @@ void scen_c14(mt_case * c) {
   mt_hash(c->prog.p, c->prog.pos);
   mt_lib_start(c, &e, 0);
   mv_set_point_observer(nosw_observer);
-  myth_mutex_init(&O.m, 0);
+  Z0(myth_mutex_init(&O.m, 0));
   myth_thread_t th[16];
-  for (int k = 0; k < O.K; k++) myth_create_ex(&th[k], 0, once_caller, (void *)(intptr_t)k);
-  for (int k = 0; k < O.K; k++) { myth_join(th[k], 0); mv_progress(); }
+  for (int k = 0; k < O.K; k++) Z0(myth_create_ex(&th[k], 0, once_caller, (void *)(intptr_t)k));
+  for (int k = 0; k < O.K; k++) { Z0(myth_join(th[k], 0)); mv_progress(); }
   mt_lib_finish();
   int used[3] = { 0 };
   for (int k = 0; k < O.K; k++) used[O.ctl_of[k]] = 1;
